@@ -43,7 +43,7 @@ ID = "C03"
 LEAN_TARGETS = ["RV.C03.Props", "RV.C03.Audit"]
 AUDIT = "RV/C03/Audit.lean"
 DRIVER = "drv_c03"
-CASES = {"quick": 260, "thorough": 5000, "search": 3000}
+CASES = {"quick": 260, "thorough": 12000, "search": 3000}
 FORMATS = ["nt", "turtle", "longturtle", "n3", "xml", "pretty-xml", "json-ld", "hext"]
 PARSE_AS = {"pretty-xml": "xml", "longturtle": "turtle"}
 FMT_TIMEOUT_S = 4.0
@@ -308,6 +308,65 @@ def _struct_probe(spec):
     return lines
 
 
+HEXT_MAX = 3
+_XS = gg.XSD + "string"
+
+
+def _hterm(o):
+    """JSON term -> the model's notation of the (RDF 1.1 normalised) object term"""
+    if o[0] == "i":
+        return f"i {cps(o[1])}"
+    if o[0] == "b":
+        return f"b {cps(o[1])}"
+    lit = gg.term(o)
+    dt = str(lit.datatype) if lit.datatype is not None else None
+    lang = lit.language
+    if dt is None and lang is None:
+        dt = _XS
+    return f"l {cps(str(lit))} {cps(dt) if dt is not None else '*'} {cps(lang) if lang is not None else '*'}"
+
+
+def _hext_probe(spec):
+    """-> [(model line, expected, post)]: the writer's row read by the model's reader, and the model's row read
+    by rdflib's reader, for the first HEXT_MAX distinct objects"""
+    import json as _json
+    lines, seen = [], []
+    for _s, _p, o in spec["triples"]:
+        if o in seen or (o[0] == "l" and o[3] == ""):
+            continue
+        seen.append(o)
+        if len(seen) > HEXT_MAX:
+            break
+        g = Graph(bind_namespaces="none")
+        g.add((_PS, _PP, gg.term(o)))
+        row = _json.loads(g.serialize(format="hext").strip())
+        v, d, l = row[2], row[3], row[4]
+        lines.append((f"hextp {cps(v)} {cps(d)} {cps(l)}", _hterm(o), None))
+        if o[0] == "l":
+            lit = gg.term(o)
+            dt = str(lit.datatype) if lit.datatype is not None else None
+            mline = f"hext l {cps(str(lit))} {cps(dt) if dt is not None else '*'} {cps(lit.language) if lit.language is not None else '*'}"
+        else:
+            mline = f"hext {o[0]} {cps(o[1])}"
+        lines.append((mline, _hterm(o), "hext"))
+    return lines
+
+
+def _hext_read_back(out):
+    """hand the model's row to rdflib's hext reader; answer in the model's notation"""
+    import json as _json
+    try:
+        v, d, l = (uncps(w) for w in out.split(" "))
+        doc = _json.dumps(["urn:x-probe-s", gg.RDF + "value", v, d, l, ""]) + "\n"
+        h = Graph().parse(data=doc, format="hext")
+        o = list(h.objects())
+        if len(o) != 1:
+            return "none"
+        return _hterm(gg.unterm(o[0]))
+    except Exception as e:  # noqa: F841
+        return "none"
+
+
 def _read_back(text, fmt):
     """parse `<s> <p> text .` with rdflib's reader for fmt; -> 'some cps' | 'none'"""
     doc = f"<urn:x-probe-s> <urn:x-probe-p> {text} .\n"
@@ -340,9 +399,10 @@ def run_impl(case):
             done += 1
         else:
             viol.append(f"{st}-{fmt}: {detail}")
-    probe = _probe(spec)
+    probe = _probe(spec) + _hext_probe(spec)
     sprobe = _struct_probe(spec)
     obs = [exp for _l, exp, _p in probe] + [exp for _l, exp in sprobe]
+    stats["probe_hext"] = sum(1 for l, _e, _p in probe if l.startswith("hext"))
     stats["probe_lines"] = len(probe)
     stats["probe_isValidList"] = sum(1 for l, _e in sprobe if l.startswith("vl "))
     stats["probe_isValidList_true"] = sum(1 for l, e in sprobe if l.startswith("vl ") and e == "true")
@@ -362,15 +422,21 @@ def gen_case(rng, tier, i):
 
 
 def model_lines(case):
-    return [l for l, _e, _p in _probe(case["spec"])] + [l for l, _e in _struct_probe(case["spec"])]
+    return ([l for l, _e, _p in _probe(case["spec"]) + _hext_probe(case["spec"])]
+            + [l for l, _e in _struct_probe(case["spec"])])
 
 
 def select_model_obs(case, out):
     """The model's own encodings (`ntenc`, `tenc`) are handed to rdflib's readers; the observation is what they read."""
     res = []
-    probe = _probe(case["spec"])
+    probe = _probe(case["spec"]) + _hext_probe(case["spec"])
     for (_l, _e, post), o in zip(probe, out):
-        res.append(_read_back(uncps(o), post) if post and o != "bad-op" else o)
+        if post == "hext" and o != "bad-op":
+            res.append(_hext_read_back(o))
+        elif post and o != "bad-op":
+            res.append(_read_back(uncps(o), post))
+        else:
+            res.append(o)
     return res + list(out[len(probe):])
 
 
